@@ -832,3 +832,163 @@ func dkgRootAnswered(run *mon.Run) {
 	}
 	run.Require(run.Counter("root-answered.runs") >= 40, "fewer than 40 root-polynomial runs with an answered complaint")
 }
+
+// ---- a network that delivers synchronously -------------------------------------------------------
+
+// syncNet routes every message straight to its receivers from inside the sender's PrivateSend / Broadcast
+// call (an in-process transport): a reply that a message provokes reaches the original sender while its
+// own call (NextTimeout, a handler) is still on the stack. Messages emitted during Start are queued and
+// delivered once every participant has started. Delivery ORDER is a legal one - every broadcast reaches
+// everybody in the round it was sent, per-sender order is kept - only the call nesting is unusual.
+type syncNet struct {
+	n        int
+	nodes    []crypto.DKGState
+	procs    []*syncProc
+	queueing bool
+	queue    []func()
+	drop     func(from, to int, data []byte) bool // private messages the (Byzantine) sender withholds
+	problem  string
+}
+
+type syncProc struct {
+	net  *syncNet
+	id   int
+	disq map[int]bool
+	flag int
+}
+
+func (p *syncProc) deliver(f func()) {
+	if p.net.queueing {
+		p.net.queue = append(p.net.queue, f)
+		return
+	}
+	f()
+}
+
+func (p *syncProc) PrivateSend(dest int, data []byte) {
+	c := append([]byte{}, data...)
+	sim.Scribble(data)
+	if p.net.drop != nil && p.net.drop(p.id, dest, c) {
+		return
+	}
+	p.deliver(func() { _ = p.net.nodes[dest].HandlePrivateMsg(p.id, append([]byte{}, c...)) })
+}
+
+func (p *syncProc) Broadcast(data []byte) {
+	c := append([]byte{}, data...)
+	sim.Scribble(data)
+	for j := 0; j < p.net.n; j++ {
+		if j == p.id {
+			continue
+		}
+		j := j
+		p.deliver(func() { _ = p.net.nodes[j].HandleBroadcastMsg(p.id, append([]byte{}, c...)) })
+	}
+}
+func (p *syncProc) Disqualify(i int, _ string)      { p.disq[i] = true }
+func (p *syncProc) FlagMisbehavior(i int, _ string) { p.flag++ }
+
+// dkgSynchronousNetwork: Feldman-VSS-Qual and Joint-Feldman over syncNet, with one Byzantine dealer that
+// withholds the share of one victim and otherwise behaves (so the victim complains and the dealer's real
+// instance answers correctly, re-entrantly). All honest participants must agree, the dealer stays qualified.
+func dkgSynchronousNetwork(run *mon.Run) {
+	grid := [][2]int{{3, 1}, {4, 1}, {5, 2}}
+	if !run.Quick() {
+		grid = append(grid, [2]int{6, 2}, [2]int{7, 3})
+	}
+	for gi, g := range grid {
+		n, t := g[0], g[1]
+		r := run.Rand(fmt.Sprintf("sync-net-%d", gi))
+		for _, proto := range []string{"FeldmanVSSQual", "JointFeldman"} {
+			for rep := 0; rep < run.Pick(3, 10); rep++ {
+				byz := r.IntN(n)
+				victim := (byz + 1 + r.IntN(n-1)) % n
+				withhold := rep%3 != 2 // every third run is all-honest
+				order := r.Perm(n)     // the order in which the participants' timeouts fire
+				net := &syncNet{n: n, queueing: true}
+				net.drop = func(from, to int, data []byte) bool {
+					return withhold && from == byz && to == victim && len(data) > 0 && data[0] == sim.TagShare
+				}
+				repm := map[string]any{"protocol": proto, "n": n, "t": t, "byzantine_dealer": byz, "victim": victim, "withhold": withhold, "timeout_order": order}
+				ok := true
+				for id := 0; id < n && ok; id++ {
+					p := &syncProc{net: net, id: id, disq: map[int]bool{}}
+					var in crypto.DKGState
+					var err error
+					if proto == "FeldmanVSSQual" {
+						in, err = crypto.NewFeldmanVSSQual(n, t, id, p, byz)
+					} else {
+						in, err = crypto.NewJointFeldman(n, t, id, p)
+					}
+					if err != nil {
+						ok = false
+					}
+					net.nodes, net.procs = append(net.nodes, in), append(net.procs, p)
+				}
+				if !ok {
+					continue
+				}
+				type outcome struct {
+					err error
+					gpk []byte
+					pks string
+				}
+				outs := make([]outcome, n)
+				if run.Guard("synchronous-network", repm, func() {
+					for id := 0; id < n; id++ {
+						_ = net.nodes[id].Start(mon.RandBytes(r, 32))
+					}
+					net.queueing = false
+					q := net.queue
+					net.queue = nil
+					for _, f := range q {
+						f()
+					}
+					for round := 0; round < 2; round++ {
+						for _, id := range order {
+							_ = net.nodes[id].NextTimeout()
+						}
+					}
+					for id := 0; id < n; id++ {
+						_, gpk, pks, err := net.nodes[id].End()
+						outs[id].err = err
+						if err == nil {
+							outs[id].gpk = gpk.Encode()
+							for _, k := range pks {
+								outs[id].pks += mon.Hex(k.Encode())
+							}
+						}
+					}
+				}) {
+					continue
+				}
+				run.Eval(n)
+				run.Count("sync-net.runs", 1)
+				ref0 := -1
+				for id := 0; id < n; id++ {
+					if id == byz && withhold {
+						continue
+					}
+					if proto == "FeldmanVSSQual" && id == byz {
+						continue
+					}
+					if len(net.procs[id].disq) != 0 || outs[id].err != nil {
+						run.Violate("C07:synchronous-network:"+proto+":honest-run-disqualifies", fmt.Sprintf("%s (n=%d,t=%d) over a synchronously delivering network: participant %d reported disqualifications %v and End() = %v, although the only deviation was a withheld share that the dealer answered correctly (victim %d, dealer %d)", proto, n, t, id, net.procs[id].disq, outs[id].err, victim, byz), repm)
+						ref0 = -2
+						break
+					}
+					if ref0 < 0 {
+						ref0 = id
+						continue
+					}
+					if !bytes.Equal(outs[id].gpk, outs[ref0].gpk) || outs[id].pks != outs[ref0].pks {
+						run.Violate("C07:synchronous-network:"+proto+":disagree", fmt.Sprintf("%s (n=%d,t=%d) over a synchronously delivering network: participants %d and %d end with different keys", proto, n, t, ref0, id), repm)
+						break
+					}
+				}
+				run.Shape(fmt.Sprintf("sync-net|%s|%d|%v", proto, n, withhold))
+			}
+		}
+	}
+	run.Require(run.Counter("sync-net.runs") >= 12, "synchronous-network runs not driven")
+}
